@@ -83,7 +83,23 @@ class AsymmetricStepSolver(ScaledStepSolver):
         jac = self.jac
         hess = self.hess
 
-        hess += sp.sparse.diags([lamb], shape=(n, n), dtype=self.params.dtype)
+        # Add the diagonal as duplicate entries (summed during assembly) so
+        # that it stays structurally present even if an entry cancels to
+        # zero: overwrite_active_rows needs the diagonal entry of every row
+        hess = hess.tocoo()
+        diag_indices = np.arange(n)
+        diag_data = np.full((n,), lamb, dtype=self.params.dtype)
+
+        hess = sp.sparse.coo_matrix(
+            (
+                np.concatenate([hess.data, diag_data]),
+                (
+                    np.concatenate([hess.row, diag_indices]),
+                    np.concatenate([hess.col, diag_indices]),
+                ),
+            ),
+            shape=(n, n),
+        )
 
         lower_mat = sp.sparse.diags(
             [-lamb / (1.0 + lamb * rho)], shape=(m, m), dtype=self.params.dtype
